@@ -11,7 +11,8 @@ sys.path.insert(0, VERIF)
 from sa.model import Model          # noqa: E402
 from sa.overlay import Overlay      # noqa: E402
 
-ov = Overlay.load('/repo')
+ROOT = os.environ.get('VERIF_REPO', '/repo')
+ov = Overlay.load(ROOT)
 m = Model(ov, flatten=False)
 out = {}
 for f in m.all_functions():
@@ -20,10 +21,27 @@ for f in m.all_functions():
     out.setdefault(f.path, []).append(f.qualname)
 from sa.inline import attr_signatures   # noqa: E402
 attrs = {c.qualname: {a: sorted(sig) for a, sig in attr_signatures(m, c).items()} for c in m.classes.values()}
-commit = subprocess.run('git -C /repo rev-parse HEAD', shell=True, capture_output=True, text=True).stdout.strip()
-dirty = subprocess.run('git -C /repo status --porcelain', shell=True, capture_output=True, text=True).stdout.strip()
+commit = subprocess.run('git -C %s rev-parse HEAD' % ROOT, shell=True, capture_output=True, text=True).stdout.strip()
+dirty = subprocess.run('git -C %s status --porcelain' % ROOT, shell=True, capture_output=True, text=True).stdout.strip()
 if dirty:
     sys.exit('refusing: /repo is not clean')
-json.dump({'commit': commit, 'functions': {k: sorted(set(v)) for k, v in sorted(out.items())}, 'attrs': attrs},
+import ast      # noqa: E402
+
+
+def bound_names(body):
+    out_ = set()
+    for st in body:
+        if isinstance(st, (ast.Assign, ast.AnnAssign, ast.AugAssign)):
+            for t in (st.targets if isinstance(st, ast.Assign) else [st.target]):
+                for x in ast.walk(t):
+                    if isinstance(x, ast.Name):
+                        out_.add(x.id)
+    return sorted(out_)
+
+
+module_names = {mod.path: bound_names(mod.tree.body) for mod in m.modules.values()}
+class_names = {c.qualname: bound_names(c.node.body) for c in m.classes.values()}
+json.dump({'commit': commit, 'functions': {k: sorted(set(v)) for k, v in sorted(out.items())}, 'attrs': attrs,
+           'module_names': module_names, 'class_names': class_names},
           open(os.path.join(VERIF, 'reference_api.json'), 'w'), indent=0)
 print('reference', commit, sum(len(v) for v in out.values()), 'functions')
